@@ -162,7 +162,7 @@ func vScenarioCases(t *testing.T, withDecode bool) {
 					runtime.ReadMemStats(&m0)
 					outs, consumed, maxAsk := vRunDecode(c)
 					runtime.ReadMemStats(&m1)
-					out.printf("dec %s outs=%s consumed=%s maxask=%d alloc=%d inflated=%s", c.id, strings.Join(outs, "|"), strings.Join(consumed, ","), maxAsk, m1.TotalAlloc-m0.TotalAlloc, vInflateStream(vUnhex(c.get("stream"))))
+					out.printf("dec %s outs=%s consumed=%s maxask=%d alloc=%d inflated=%s errh=%s", c.id, strings.Join(outs, "|"), strings.Join(consumed, ","), maxAsk, m1.TotalAlloc-m0.TotalAlloc, vInflateStream(vUnhex(c.get("stream"))), strings.Join(vErrTexts, ","))
 				})
 			}
 		case "cc":
